@@ -50,12 +50,17 @@ Inductive vexpr :=
 | XMean (a : vexpr)                       (* v.mean() *)
 | XMeanAxis0 (a : vexpr)                  (* M.mean(axis=0) *)
 | XSumAxis0 (a : vexpr)                   (* M.sum(axis=0) *)
-| XOuter (a b : vexpr).                   (* np.outer(u, v) *)
+| XOuter (a b : vexpr)                    (* np.outer(u, v) *)
+(* --- gnn/layer.py: Convolution.forward (C19) --- *)
+| XSqrt (a : vexpr)                       (* np.sqrt(v) *)
+| XAddSelfLoops (a : vexpr)               (* add_self_loops(M): M + I on the (rectangular) diagonal *)
+| XIfFlag (x : string) (t e : vexpr).     (* t if <boolean attribute x> else e *)
 
 Section Carrier.
   Context {T : Type}.
   Context (tadd tsub tmul tdiv : T -> T -> T) (t0 t1 : T).
   Context (tabs : T -> T) (tleb : T -> T -> bool) (teqb : T -> T -> bool) (tnat : nat -> T) (tlit : Z -> Z -> T).
+  Context (tsqrt : T -> T).
   (** [memo n f] must agree with [f] below [n].  The instance used in the theorems is the identity; the instance used for
       execution tabulates [f] once (otherwise every loop iteration would re-evaluate the whole history of closures). *)
   Context (memo : nat -> (nat -> T) -> nat -> T).
@@ -96,6 +101,8 @@ Section Carrier.
     | WV n f, WV m h => if n =? m then Some (WV n (fun i => g (f i) (h i))) else None
     | WM n k f, WM n' k' h =>
         if (n =? n') && (k =? k') then Some (WM n k (fun i j => g (f i j) (h i j))) else None
+    | WM n k f, WV m h => if k =? m then Some (WM n k (fun i j => g (f i j) (h j))) else None
+    | WV m h, WM n k f => if k =? m then Some (WM n k (fun i j => g (h j) (f i j))) else None
     | WV n f, _ => match scal b with Some y => Some (WV n (fun i => g (f i) y)) | None => None end
     | _, WV n f => match scal a with Some x => Some (WV n (fun i => g x (f i))) | None => None end
     | WM n k f, _ => match scal b with Some y => Some (WM n k (fun i j => g (f i j) y)) | None => None end
@@ -250,6 +257,23 @@ Section Carrier.
         | Some (WV n f), Some (WV k h) => Some (WM n k (fun i j => tmul (f i) (h j)))
         | _, _ => None
         end
+    | XSqrt a =>
+        match vdenote r a with
+        | Some (WV n f) => Some (WV n (fun i => tsqrt (f i)))
+        | Some (WS x) => Some (WS (tsqrt x))
+        | _ => None
+        end
+    | XAddSelfLoops a =>
+        match vdenote r a with
+        | Some (WM n k f) => Some (WM n k (fun i j => tadd (if i =? j then t1 else t0) (f i j)))
+        | _ => None
+        end
+    | XIfFlag x t e =>
+        match vlookup x r with
+        | Some (WKind true) => vdenote r t
+        | Some (WKind false) => vdenote r e
+        | _ => None
+        end
     | XAsBool a =>
         match vdenote r a with
         | Some (WV n f) => Some (WV n (fun i => if teqb (f i) t0 then t0 else t1))
@@ -287,7 +311,10 @@ Arguments vvalue : clear implicits.
 Definition qmemo (n : nat) (f : nat -> Q) : nat -> Q :=
   let l := map (fun i => Qred (f i)) (seq 0 n) in fun i => nth i l 0%Q.
 Definition qvdenote : venv -> vexpr -> option (vvalue Q) :=
-  vdenote Qplus Qminus Qmult Qdiv 0%Q 1%Q Qabs Qle_bool Qeq_bool qnat qlit qmemo.
+  vdenote Qplus Qminus Qmult Qdiv 0%Q 1%Q Qabs Qle_bool Qeq_bool qnat qlit (fun x => x) qmemo.
+(** the same with a finite oracle table for sqrt (a missing entry evaluates to 0, which makes the result differ and is reported) *)
+Definition qvdenote_sqrt (tab : list (Q * Q)) : venv -> vexpr -> option (vvalue Q) :=
+  vdenote Qplus Qminus Qmult Qdiv 0%Q 1%Q Qabs Qle_bool Qeq_bool qnat qlit (qtable tab) qmemo.
 Definition qvresult (v : option (vvalue Q)) : list Q :=
   match v with Some (WV n f) => map (fun i => Qred (f i)) (seq 0 n) | _ => [] end.
 Local Open Scope string_scope.
@@ -322,3 +349,9 @@ Definition qenv_normalizer_v (A : list (list Q)) (n k : nat) (reg : Q) (x : list
   ("adjacency", wmat 0%Q A n k) :: ("regularization", WS reg) :: ("matrix", wvec 0%Q x) :: nil.
 Definition qenv_normalizer_m (A : list (list Q)) (n k : nat) (reg : Q) (X : list (list Q)) (r c : nat) : venv :=
   ("adjacency", wmat 0%Q A n k) :: ("regularization", WS reg) :: ("matrix", wmat 0%Q X r c) :: nil.
+
+(** environment of Convolution.forward: adjacency, features, weight, bias and the two boolean options *)
+Definition qenv_conv (A : list (list Q)) (n : nat) (X : list (list Q)) (d : nat) (W : list (list Q)) (o : nat) (b : list Q)
+           (self_emb use_bias : bool) : venv :=
+  ("adjacency", wmat 0%Q A n n) :: ("features", wmat 0%Q X n d) :: ("self.weight", wmat 0%Q W d o) ::
+  ("self.bias", wvec 0%Q b) :: ("self.self_embeddings", WKind self_emb) :: ("self.use_bias", WKind use_bias) :: nil.
